@@ -193,6 +193,21 @@ class Session:
                 rec["plain"][(op["where"], op["name"])] = op["v"]
             except Exception as e:
                 self.events.append("rebind rejected %s" % type(e).__name__)
+        elif k == "rebind_obj":
+            # the name is bound to a modelx object (the model itself, absolute mode) instead: the value it held is released
+            cont = self.container(rec, op["where"])
+            if self.visible(rec, op["where"], op["name"]) is None or self.cells_visible(rec, op["where"], op["name"]):
+                return
+            try:
+                if op["where"] == "":
+                    setattr(cont, op["name"], m)
+                else:
+                    cont.absref(**{op["name"]: m})
+                rec["bind"].pop((op["where"], op["name"]), None)
+                rec["plain"][(op["where"], op["name"])] = m
+                self.ctx.count("rebound_to_a_modelx_object", 1, "reach")
+            except Exception as e:
+                self.events.append("rebind rejected %s" % type(e).__name__)
         elif k == "del":
             cont = self.container(rec, op["where"])
             key = (op["where"], op["name"])
@@ -210,6 +225,17 @@ class Session:
                 return
             vid = vids[op["i"] % len(vids)]
             try:
+                others = [v for v in vids if v != vid and rec["kind"][v] == "new_pandas"]
+                if rec["kind"][vid] == "new_pandas" and op.get("onto_specd") and others:
+                    # the new value is one that has a spec of its own: refused with nothing changed, or taken over with every
+                    # invariant below still standing
+                    other = others[op["i"] % len(others)]
+                    self.ctx.count("update_onto_a_value_with_its_own_spec", 1, "reach")
+                    m.update_pandas(rec["values"][vid], rec["values"][other])
+                    for key, v in list(rec["bind"].items()):
+                        if v == vid:
+                            rec["bind"][key] = other
+                    return
                 if rec["kind"][vid] == "new_pandas":
                     new = self.frame()
                     nid = self.nv
@@ -270,6 +296,14 @@ class Session:
                 else:
                     if open(f).read() != rec["text"][vid]:
                         raise Violation("C18/spec-file-differs/module", {"path": rec["paths"][vid]})
+            # ... and no file of a spec that no reference holds any more
+            wanted = {os.path.normpath(rec["paths"][vid]) for vid in self.live_vids(rec)}
+            for sub in ("files", "mods"):
+                for dp, dn, fn in os.walk(os.path.join(p, sub)):
+                    for f in fn:
+                        rel = os.path.normpath(os.path.relpath(os.path.join(dp, f), p))
+                        if rel not in wanted and not f.endswith(".pyc") and "__pycache__" not in rel:
+                            raise Violation("C18/file-of-a-released-spec-written", {"path": rel, "live": sorted(wanted)})
             self.ctx.count("saves_checked", 1, "reach")
         elif k == "close":
             if len(self.models) < 2:
@@ -419,7 +453,7 @@ class Session:
                             raise Violation("C18/reference-lost-its-value/after=" + op["op"], {"where": where, "name": name})
                         if where != "" and (where, name) not in rec["bind"]:
                             self.ctx.count("inherited_bindings_checked", 1, "reach")
-                    elif have != exp[1]:
+                    elif (have is not exp[1]) if exp[1] is rec["m"] else (have != exp[1]):
                         raise Violation("C18/reference-lost-its-value/plain/after=" + op["op"], {"where": where, "name": name})
             if len(want) >= 1 and any(list(rec["bind"].values()).count(v) > 1 for v in want_ids):
                 self.ctx.nontrivial = True
@@ -458,11 +492,13 @@ class Session:
         if r < 0.5:
             return {"op": "assign", "mi": mi, "where": where, "name": name, "src_where": rng.choice(pool), "src": rng.choice(NAMES)}
         if r < 0.6:
+            if rng.random() < 0.3:
+                return {"op": "rebind_obj", "mi": mi, "where": where, "name": name}
             return {"op": "rebind_plain", "mi": mi, "where": where, "name": name, "v": rng.randrange(100)}
         if r < 0.8:
             return {"op": "del", "mi": mi, "where": where, "name": name}
         if r < 0.9:
-            return {"op": "update", "mi": mi, "i": rng.randrange(10), "bind_first": rng.random() < 0.3}
+            return {"op": "update", "mi": mi, "i": rng.randrange(10), "bind_first": rng.random() < 0.3, "onto_specd": rng.random() < 0.2}
         if r < 0.9 + self.cfg["p_save"]:
             return {"op": "save", "mi": mi}
         if r < 0.98:
@@ -476,7 +512,7 @@ class C18(PropBase):
     rule = ("one case = one seeded history over one or two models with spaces A, B(A), C (+ D, E created on the way): "
             "new_pandas (csv) and new_module on the model and on "
             "spaces with colliding names and file locations (incl. hostile creations: name of a space, invalid name, taken "
-            "file), plain assignment of the same value to further names, rebinding to plain values, deleting references "
+            "file), plain assignment of the same value to further names, rebinding to plain values and to modelx objects, deleting references "
             "(base before derived and the reverse), update_pandas / update_module, new_space(refs=...), Space.copy, deleting "
             "spaces, add_bases / remove_bases, saving, closing a model; after every step, per model: "
             "iospecs values == values bound to at least one reference (by identity, no duplicates), no two specs share a "
